@@ -234,7 +234,7 @@ def build(tier, rng):
     excluded = {}
     for label, ctx in contexts:
         schemes = list(ctx.schemes())
-        for pos, sch in enumerate(schemes):
+        for sch in schemes:
             h = handlers.get(sch)
             if h is None:
                 continue
